@@ -419,14 +419,30 @@ fn in_common_model(v: &Val) -> bool {
 fn seed_values(acc: &mut Acc) {
     for s in crate::corpus::seeds() {
         let Some(src) = s.fmt else { continue };
-        let Ok(docs) = read_stream(src, &s.bytes) else { continue };
+        let r: Result<Vec<Val>, String> = match src {
+            Fmt::Json => crate::read::json::read_many(&s.bytes).map(|v| v.into_iter().map(|x| x.0).collect()),
+            Fmt::Msgpack => crate::read::msgpack::read_all(&s.bytes),
+            Fmt::Yaml => crate::read::yaml::read_docs(&s.bytes).map(|v| v.into_iter().map(|d| d.val).collect()),
+            Fmt::Toml => crate::read::toml::read(&s.bytes).map(|v| vec![v]),
+        };
+        let Ok(docs) = r else { continue };
         if docs.len() != 1 || !in_common_model(&docs[0]) {
             continue;
         }
         acc.count("seed_inputs_inside_the_common_model");
         for to in fmts::STREAMING {
             for mode in [Mode::Slice, Mode::Reader(Sched::Fixed(5))] {
-                judge(&s.bytes, Some(src), src, to, &mode, &docs[0], acc);
+                // the property speaks of what xt translates: a form xt refuses (a tag it does not resolve, ...) is
+                // not judged here, a form it accepts must come out with its value
+                let o = run_mode(&s.bytes, &mode, Some(src), to);
+                if !o.verdict.is_ok() {
+                    acc.count("seed_inputs_refused_by_xt");
+                    if o.verdict.is_panic() {
+                        acc.violation(Violation { sig: format!("seed {}->{}: panic", src.name(), to.name()), case: case_json(&s.bytes, Some(src), src, to, &mode, &docs[0]), observed: o.verdict.show(), expected: "no panic".into() });
+                    }
+                    continue;
+                }
+                judge_outcome(o, &s.bytes, Some(src), src, to, &mode, &docs[0], acc);
             }
         }
     }
